@@ -341,7 +341,54 @@ def sweep_dicts(r, all_keys):
             yield {(k, 0xFE): b"\x01", (k ^ 1, None): None}, "sweep:key"
 
 
+FORMS = ("list", "tuple", "generator", "iter", "map", "deque", "oneshot")
+
+
+class Extra(list):
+    """the caller's extra blocks plus the kind of Iterable[bytes] they are handed over as"""
+    form = "list"
+
+
+def with_form(blocks, form):
+    e = Extra(blocks)
+    e.form = form
+    return e
+
+
+class OneShot:
+    """an iterable that can be walked once only (like a file or a socket reader)"""
+
+    def __init__(self, items):
+        self._it = iter(list(items))
+
+    def __iter__(self):
+        return self._it
+
+
+def as_iterable(items, form):
+    """every kind of argument the Iterable[...] signatures allow"""
+    import collections
+    items = list(items)
+    if form == "tuple":
+        return tuple(items)
+    if form == "generator":
+        return (x for x in items)
+    if form == "iter":
+        return iter(items)
+    if form == "map":
+        return map(lambda x: x, items)
+    if form == "deque":
+        return collections.deque(items)
+    if form == "oneshot":
+        return OneShot(items)
+    return items
+
+
 def gen_extra(r):
+    return with_form(_gen_extra(r), r.choice(FORMS))
+
+
+def _gen_extra(r):
     style = r.random()
     if style < 0.5:
         return []
@@ -385,11 +432,13 @@ def impl_list(d):
 
 def impl_set_config(prior, d, extra):
     from bec2format.bf3file import Bf3File, Bf3Component
-    f = Bf3File({}, [Bf3Component(dict(desc), blob, alen, encrypt_by_session_key=flag)
-                     for desc, blob, alen, flag in prior])
+    form = getattr(extra, "form", "list")
+    # Bf3File(components: Iterable[Bf3Component]) and set_config(additional_tvl_blocks: Iterable[bytes])
+    f = Bf3File({}, as_iterable([Bf3Component(dict(desc), blob, alen, encrypt_by_session_key=flag)
+                                 for desc, blob, alen, flag in prior], form))
     prior_seen = [(list(c.description.items()), c.blob, c.actual_len, c.encrypt_by_session_key)
                   for c in f.components]
-    r = run_impl(f.set_config, dict(d), list(extra))
+    r = run_impl(f.set_config, dict(d), as_iterable(extra, form))
     if r[0] == "err":
         return r, prior_seen, f
     return ("ok", [(list(c.description.items()), bytes(c.blob), c.actual_len, c.encrypt_by_session_key)
@@ -489,6 +538,7 @@ def correspondence(ctx):
             extra = gen_extra(r)
             if r.random() < 0.1:
                 extra.insert(r.randrange(len(extra) + 1), r.choice([b"", bytes(256), bytes(300)]))
+            ctx.dist["extra-as:" + extra.form] += 1
             prior = gen_prior(r)
             sc, prior_seen, _ = impl_set_config(prior, d, extra)
             exprs.append("res_eqb (list_eqb component_eqb) (set_config %s %s %s) %s" % (
@@ -505,8 +555,9 @@ def correspondence(ctx):
     ctx.traces += len(exprs)
     for i in bad[:10]:
         fn, d, extra, prior = descr[i]
-        data = pack(d, extra or [], prior or [])
-        why = predicate(d, extra or [], prior or []) if in_quantifier(d) and all(0 < len(x) < 256 for x in (extra or [])) else None
+        extra = [] if extra is None else extra
+        data = pack(d, extra, prior or [])
+        why = predicate(d, extra, prior or []) if in_quantifier(d) and all(0 < len(x) < 256 for x in extra) else None
         if why:
             ctx.fail(why[0], data, why[1])
         else:
@@ -519,13 +570,14 @@ def correspondence(ctx):
 def pack(d, extra, prior):
     return {"dict": [[k, v, (None if c is None else bytes(c).hex())] for (k, v), c in d.items()],
             "extra": [bytes(x).hex() for x in extra],
+            "extra_form": getattr(extra, "form", "list"),
             "prior": [[[[t, bytes(v).hex()] for t, v in desc], bytes(blob).hex(), alen, flag]
                       for desc, blob, alen, flag in prior]}
 
 
 def unpack(data):
     d = {(k, v): (None if c is None else bytes.fromhex(c)) for k, v, c in data["dict"]}
-    extra = [bytes.fromhex(x) for x in data.get("extra", [])]
+    extra = with_form([bytes.fromhex(x) for x in data.get("extra", [])], data.get("extra_form", "list"))
     prior = [([(t, bytes.fromhex(v)) for t, v in desc], bytes.fromhex(blob), alen, flag)
              for desc, blob, alen, flag in data.get("prior", [])]
     return d, extra, prior
@@ -564,8 +616,10 @@ def search(ctx):
     def run(d, lab, extra=None, prior=None):
         extra = gen_extra(r) if extra is None else extra
         prior = gen_prior(r) if prior is None else prior
-        ctx.case(("search", list(d.items()), extra), trivial=not d)
+        ctx.case(("search", list(d.items()), extra, getattr(extra, "form", "list")), trivial=not d)
         ctx.dist["search:" + lab] += 1
+        if extra:
+            ctx.dist["search:extra-as:" + getattr(extra, "form", "list")] += 1
         why = predicate(d, extra, prior)
         if why:
             ctx.fail(why[0], pack(d, extra, prior), why[1])
@@ -573,6 +627,12 @@ def search(ctx):
 
     run({}, "empty", [], [])
     run({}, "empty", [b"\x01\x02"], [])
+    # the extra blocks (and the components of the file) handed over as every kind of Iterable
+    for form in FORMS:
+        for blocks in ([b"\x01\x02"], [b"\xaa", bytes(255)], [bytes([i]) * i for i in (1, 2, 3)], []):
+            run({}, "forms", with_form(blocks, form), [])
+            run({(1, 1): b"ab", (2, None): None}, "forms", with_form(blocks, form), None)
+            run(gen_dict(r, 8), "forms", with_form(blocks, form), None)
     for rep in range(boost * (1 if ctx.quick() else 6)):
         for d, lab in landing_dicts(r):
             run(d, lab)
@@ -596,7 +656,8 @@ def search(ctx):
         "dictionaries of 0..40 (some 100..600) entries with contents made of FF/00/01/02, sweeps over every content length 0..254, every value id "
         "0..0xFE and keys sweeping both bytes (all 65536 keys in thorough); correspondence additionally a malformed stream (key > 16 bit, "
         "value id 255/256+, content 255/256+ bytes, delete-key with delete-value or set of its key, empty / 256+ byte extra blocks) for "
-        "conf_dict_to_tlv, conf_dict_to_list and set_config (components before/after); search decodes conf_dict_to_tlv and the set_config "
+        "conf_dict_to_tlv, conf_dict_to_list and set_config (components before/after); the extra blocks and the file's components are handed over "
+        "as list / tuple / generator / iter(list) / map / deque / one-shot iterable; search decodes conf_dict_to_tlv and the set_config "
         "blob of the real implementation with an independent decoder and checks sizes, emptiness, order, content, extra blocks, tags; "
         "non-trivial = non-empty dictionary; distinct by (entries in insertion order, extra blocks)")
 
@@ -613,6 +674,7 @@ def replay(ctx, data):
         if tl[0] == "ok":
             print(" block lengths:", [len(b) for b in tl[1]], "predicate:", check_blocks(d, tl[1]))
         sc, _, fobj = impl_set_config(prior, d, extra)
+        print(" extra blocks %s handed over as %s" % ([x.hex() for x in extra], extra.form))
         print(" set_config ->", sc[0], (sc[1] if sc[0] == "err" else [(c[0], c[1].hex(), c[2], c[3]) for c in sc[1]][-1:]))
         why = predicate(d, extra, prior)
         print(" property predicate on /repo:", why)
